@@ -38,6 +38,10 @@ LEVEL_NOTE = (
     '(a run of more than 100 empty cells cuts a range short), D1404 (COUNT/COUNTA reject more than 255/256 '
     'cells). A reference to a never-stored cell (BLANK) is inside the domain: it must be ignored (D1405, fixed).')
 DESIGN_REF = '§4 C14'
+
+# theorems of the integrated pipeline model (Props/X01.lean) that carry this property's theorems to formula TEXTS in a
+# compiled workbook; re-built and audited with this check (harness/common.prepare: soft obligations)
+TRANSPORT = ('XlVerif.Props.X01', ['X01_SUM_range_partial', 'libSem_call_aggregate'])
 TRUSTED = [
     'Lean 4.33 kernel; axioms propext, Classical.choice, Quot.sound only',
     'hand-written model lean/XlVerif/Model/C14.lean (flatten, _validate, Array, RangeNode.eval, the seven '
